@@ -154,3 +154,51 @@ def run_c20(ctx):
                 "group's grounded_discrete_effects / grounded_numeric_effects (as PDDL text re-read) and typed_action_call are "
                 "recorded and TLC compares them with position-wise substitution (Syntax!GroundLit / GroundExpr / GroundGroup). "
                 "distinct_nontrivial = distinct (action, call) pairs with at least one grounded literal or conditional group")
+
+
+def run_c18(ctx):
+    quick = ctx.quick
+    hashseeds = (0, 1, 2) if quick else tuple(range(16))
+    rng = random.Random(ctx.seed)
+    ctx.mc("MC_Rename", {"Mode": '"pre"', "Depth": 1, "NVals": 2}, ["SameShape", "SameBehaviour"], label="MC_Rename:pre")
+    ctx.mc("MC_Rename", {"Mode": '"eff"', "Depth": 1 if quick else 2, "NVals": 2}, ["SameShape", "SameBehaviour"],
+           label="MC_Rename:eff", timeout=1500)
+    ctx.mc("MC_Rename", {"Mode": '"pre"', "Depth": 1, "NVals": 2}, ["BadInPlace"], expect_violation=True)
+    cases = []
+    for i in range(300 if quick else 6000):
+        c = gen_core.gen_case(ctx.seed, 90000 + i, n_states=3, n_calls=2)
+        params = _params_of(c["tree"])
+        c["rename"] = gen_core.rename_map(rng, params)
+        c["ground"] = False
+        cases.append(c)
+    tf = ctx.drive("core", cases, hashseeds=hashseeds, opts={"snaps": False})
+    ctx.validate(tf, {c["id"]: c for c in cases}, driver="core", opts={"snaps": False})
+    kinds = {}
+    for line in open(tf):
+        h = json.loads(line)
+        for e in h["ev"]:
+            if e["c"] == "Rename":
+                m = e["map"]
+                overl = bool(set(m.values()) & set(m.keys()))
+                kinds["overlapping" if overl else "fresh"] = kinds.get("overlapping" if overl else "fresh", 0) + 1
+                if "sig" in e["out"]:
+                    ctx.nontrivial.add((h.get("text", "")[-300:], json.dumps(m, sort_keys=True)))
+                if len(ctx.samples) < 2:
+                    ctx.sample({"map": m, "renamed_signature": e["out"].get("sig"), "action": h.get("text", "")[-300:]})
+    ctx.extra["renamings_by_kind"] = kinds
+    ctx.rule = ("M: every program of the bounded family as the body of act(?x ?y) x {identity, swap, fresh, chain, keep-one, "
+                "?param_i} x every state and call: same shape and same behaviour (the in-place loop is refuted); V: random "
+                "actions (or / forall / numeric conditions, when and forall-when effects, constants) parsed twice, one copy "
+                "renamed by a random injective map (fresh / permutation / chain); applicability and successors of "
+                "the renamed copy over random states and calls are judged against Rename!RenameAction of the spec's reading. "
+                "distinct_nontrivial = distinct (action, map) pairs renamed")
+    ctx.assumptions += ["new names never collide with quantified variables of the action (capture is outside the property)"]
+
+
+def _params_of(tree):
+    act = tree["c"][-1]["c"]
+    for i, x in enumerate(act):
+        if x.get("v") == ":parameters":
+            toks = act[i + 1]["c"]
+            return [[toks[j]["v"], toks[j + 2]["v"]] for j in range(0, len(toks), 3)]
+    return []
